@@ -26,7 +26,7 @@ RULE = ("one evaluation = one seeded call history (<= 120 calls, cache capacity 
 STATE_MEASURE = "distinct (function, collision class of the argument pair, cache occupancy >= capacity?, evicted-then-recalled?) tuples"
 PROBES = ["same_bytes_other_dtype", "same_bytes_other_length", "strided_argument", "keyword_vs_positional", "cache_full_eviction",
           "evicted_then_recalled", "result_mutated", "result_readonly", "file_modified_same_size", "file_modified_other_size",
-          "contour_evicted_recomputed", "child_scalar_read", "basin_proxy_read", "h5_scalar_read", "interleaved_functions"]
+          "contour_evicted_recomputed", "child_scalar_read", "basin_proxy_read", "h5_scalar_read", "interleaved_functions", "layout_or_shape_variant_2d", "first_access_with_dtype"]
 COMPONENTS = {"real": ["dclab.cached.Cache", "dclab.kde_methods (kde_histogram, kde_gauss, kde_multivariate)", "dclab.downsampling.downsample_grid (compiled)",
                        "dclab.util.hashfile / file_monitoring_lru_cache", "dclab.features.contour.LazyContourList",
                        "H5ScalarEvent / ChildScalar / BasinProxyFeature caches", "real files and os.stat on tmpfs"],
@@ -49,6 +49,20 @@ def make_trace(seed, tier):
     return {"knobs": {"max_size": r.choice([2, 3, 5, 8, 100]), "max_events": r.choice([1, 2, 3, 5]), "n": r.choice([8, 20, 40]),
                       "world": r.choice(["memo", "memo", "memo", "files", "dataset", "mixed"])},
             "max_ops": r.choice([12, 40, 80, 120]), "ops": None}
+
+
+def _memo2d_raw(m, scale=1.0):
+    """Row sums of a 2-D array (memoised with dclab's public Cache decorator by World)."""
+    return np.asarray(m).sum(axis=1) * scale
+
+
+def build_pool2d(seed):
+    """2-D arguments that differ only in memory layout / shape: m, m.T, Fortran-ordered copies, reshaped views"""
+    rs = seeds.np_rng(seed, "pool2d")
+    m = rs.uniform(0, 10, size=(4, 4))
+    r = rs.uniform(0, 10, size=(3, 5))
+    return [("c", m), ("c.T", m.T), ("f(c.T)", np.asfortranarray(m.T)), ("f(c)", np.asfortranarray(m)), ("copy", m.copy()),
+            ("r", r), ("r.reshape", r.reshape(5, 3)), ("r.T", r.T)]
 
 
 def build_pool(seed, n):
@@ -94,6 +108,8 @@ class World:
         self.k = k
         cached.MAX_SIZE = k["max_size"]
         self.pool = build_pool(ctx.seed, k["n"])
+        self.pool2d = build_pool2d(ctx.seed)
+        self.memo2d = cached.Cache(_memo2d_raw)
         self.last_results = []       # arrays returned by the most recent calls (targets of the mutator)
         self.seen_keys = set()
         self.evicted_keys = set()
@@ -161,7 +177,7 @@ class World:
         x = r.random()
         if self.last_results and x < 0.15:
             return {"k": "mutate", "dseed": r.randrange(1 << 20)}
-        kinds = {"memo": ["kde", "kde", "dsgrid", "dsgrid", "lc"], "files": ["hf_call", "hf_call", "hf_modify", "kde"],
+        kinds = {"memo": ["kde", "kde", "dsgrid", "dsgrid", "lc", "memo2d", "memo2d"], "files": ["hf_call", "hf_call", "hf_modify", "kde"],
                  "dataset": ["ds_read", "ds_read", "ds_read", "lc"], "mixed": ["kde", "dsgrid", "hf_call", "hf_modify", "lc", "ds_read"]}[w]
         kind = r.choice(kinds)
         P = len(self.pool)
@@ -170,6 +186,8 @@ class World:
             op = {"k": "kde", "fn": r.choice(["histogram", "histogram", "gauss", "multivariate"]), "a": a,
                   "pos": r.choice([None, None, r.randrange(P)]), "kw": r.random() < 0.4, "bins": r.choice([None, None, 5, 11])}
             return op
+        if kind == "memo2d":
+            return {"k": "memo2d", "a": r.randrange(8), "kw": r.random() < 0.3, "scale": r.choice([1.0, 1.0, 2.0])}
         if kind == "dsgrid":
             return {"k": "dsgrid", "a": r.randrange(P), "samples": r.choice([0, 3, 5, 10, 1000]), "ri": r.random() < 0.4,
                     "idx": r.random() < 0.5, "kw": r.random() < 0.4}
@@ -180,7 +198,8 @@ class World:
         if kind == "hf_modify":
             return {"k": "hf_modify", "f": r.randrange(3), "how": r.choice(["same_size", "same_size", "grow", "shrink"]), "dseed": r.randrange(1 << 20)}
         return {"k": "ds_read", "which": r.choice(["file", "child", "basin"]), "feat": r.choice(["deform", "area_um", "bright_avg"]),
-                "how": r.choice(["all", "all", "idx", "slice", "asarray"]), "i": r.randrange(1 << 16)}
+                "how": r.choice(["all", "all", "idx", "slice", "asarray", "asarray_f32", "asarray_int"]), "i": r.randrange(1 << 16),
+                "fresh": r.random() < 0.3}
 
     # ---------------- execution ----------------
     def execute(self, op):
@@ -303,6 +322,24 @@ class World:
             self.last_results = list(got[1]) if isinstance(got[1], tuple) else [got[1]]
         ctx.log("c", f"downsample_grid {label} {op['samples']} {op['ri']} {op['idx']}", self.brief(got))
 
+    def do_memo2d(self, op):
+        ctx = self.ctx
+        label, m = self.pool2d[op["a"] % len(self.pool2d)]
+        args, kwargs = ([m], {"scale": op["scale"]}) if op["kw"] else ([m, op["scale"]], {})
+        got = self.cached_call(self.memo2d, args, kwargs)
+        exp = self.fresh_call(self.memo2d, args, kwargs)
+        ctx.checked()
+        ctx.state_ops += 1
+        self.note_call("memo2d", label, ("m2", op["a"], op["kw"], op["scale"]))
+        if label != "c" and label != "r":
+            ctx.probe("layout_or_shape_variant_2d")
+        if not self.same(got, exp):
+            ctx.violation("C17.memo.2d", f"a function memoised with dclab's Cache returned for argument '{label}' a value that differs from a fresh "
+                                         f"computation: {self.brief(got)} vs {self.brief(exp)}", sig={"fn": "memo2d", "label": label})
+        if got[0] == "ok":
+            self.last_results = [got[1]]
+        ctx.log("c", f"memo2d {label} {op['scale']}", self.brief(got))
+
     def do_lc(self, op):
         from dclab.features.contour import get_contour
         ctx = self.ctx
@@ -367,6 +404,14 @@ class World:
 
     def do_ds_read(self, op):
         ctx = self.ctx
+        if op.get("fresh") and self.ds_objs is not None:
+            # a freshly refreshed child / re-opened datasets: the next access is the first one
+            for d in self.ds_objs.values():
+                try:
+                    d.close()
+                except Exception:
+                    pass
+            self.ds_objs = None
         dss = self.datasets()
         which, f = op["which"], op["feat"]
         ds = dss[which]
@@ -392,6 +437,12 @@ class World:
                     got, exp = obj[i:i + 4], truth[i:i + 4]
                 elif op["how"] == "asarray":
                     got, exp = np.asarray(obj), truth
+                elif op["how"] == "asarray_f32":
+                    got, exp = np.asarray(obj, dtype=np.float32), truth.astype(np.float32)
+                    ctx.probe("first_access_with_dtype")
+                elif op["how"] == "asarray_int":
+                    got, exp = np.asarray(obj, dtype=int), truth.astype(int)
+                    ctx.probe("first_access_with_dtype")
                 else:
                     got, exp = obj[:], truth
         ctx.checked()
